@@ -276,7 +276,9 @@ func dialRoute(
 		backendHost := netutil.HostStr(backendAddr)
 		if !strings.EqualFold(clearedHost, backendHost) {
 			// Modify the handshake packet to use the backend host as virtual host.
-			handshake.ServerAddress = strings.ReplaceAll(handshake.ServerAddress, clearedHost, backendHost)
+			// Only the host itself: a Forge or TCPShield suffix that happens to contain
+			// the same text must reach the backend untouched.
+			handshake.ServerAddress = strings.Replace(handshake.ServerAddress, clearedHost, backendHost, 1)
 			forceUpdatePacketContext = true
 		}
 	}
